@@ -153,6 +153,14 @@ def install(driver):
         return
     _DONE["installed"] = True
     driver.S = types.SimpleNamespace(render_flow=lambda scn: scn["flow_text"])
+    o_qc = driver.queue_command
+
+    async def queue_command(schd, name, kwargs):
+        if name == "x_noop":
+            # keeps the driver stepping (its quiescence test looks at the tick of the last operation)
+            return True
+        return await o_qc(schd, name, kwargs)
+    driver.queue_command = queue_command
     driver.EXTRA_PATCHES.append(patch_expire)
 
 
